@@ -19,7 +19,8 @@ CONSTANTS Alphabet,     \* characters of the corpus name universe
           NameLen,      \* maximal name length in the corpus
           PerProg,      \* handlers per corpus program
           SmallNames,   \* names (char sequences) of the exhaustive small family
-          Ifaces        \* number of interfaces in the small family
+          Ifaces,       \* number of interfaces in the small family
+          BuilderSets   \* setters applied to a remote helper's builder before it builds (C10)
 
 Mod(a, b) == a % b      \* (the only occurrence of the percent sign: TLC's message formatter chokes on it)
 
@@ -127,6 +128,17 @@ Shared2 ==
                                                 Sh(<<"x">>, "exec", "ok"), Sh(<<"y">>, "query", "ok"), Sh(<<"z">>, "sudo", "err"),
                                                 Sh(NameBar, "migrate", "err") >>] >>]
 
+(* a program whose handlers take many arguments of one type: any permutation between message fields and
+   handler parameters would still type-check (C02) *)
+WideSig == [i \in 1..12 |-> [n |-> "p" \o ToString(i), t |-> "u32"]]
+Wd(name, kind) == [Sh(name, kind, "ok") EXCEPT !.args = WideSig]
+Wide1 ==
+    [id |-> "W1", family |-> "shared", overrides |-> {},
+     parts |-> << [id |-> "i1", methods |-> << Wd(NameFoo, "exec"), Wd(NameBar, "query"), Wd(<<"z">>, "sudo") >>],
+                  [id |-> "own", methods |-> << Wd(NameInstantiate, "instantiate"),
+                                                Wd(<<"x">>, "exec"), Wd(<<"y">>, "query"), Wd(NameFoo, "sudo"),
+                                                Wd(NameMigrate, "migrate") >>] >>]
+
 (* programs that override entry points (C06, C04): one handler of every kind, some kinds served by the user's own functions *)
 OvProg(id, ov) ==
     [id |-> id, family |-> "override", overrides |-> ov,
@@ -173,7 +185,7 @@ PermTwin(p) ==
 RawSeq ==      \* all programs of this instance, as a sequence
        [gi \in 1..Len(Groups) |-> CorpusProg(gi)]
     \o [i \in 1..Len(SmallFs) |-> SmallProgOf(SmallFs[i], "m" \o ToString(i))]
-    \o <<Shared1, Shared2, PermTwin(Shared1), PermTwin(CorpusProg(1))>> \o OverrideProgs \o CollideProgs
+    \o <<Shared1, Shared2, Wide1, PermTwin(Shared1), PermTwin(CorpusProg(1))>> \o OverrideProgs \o CollideProgs
 
 (* the table of elaborated programs: the static semantics applied once per program *)
 ElabSeq == TLCEval([i \in 1..Len(RawSeq) |-> Elab(RawSeq[i])])
@@ -210,10 +222,11 @@ Next ==
     \/ (\E o \in Oracles(P, ep, doc) : WrapperDecode(o))
     \/ (\E v \in {"ok", "err"} : StructVerdictOk(v) /\ StructDecode(v))
     \/ (\E v \in {"ok", "err"} : OverrideDecode(v)) \/ OverrideRun
+    \/ AbsentReject
     \/ Dispatch \/ Return
 
 Spec == Init /\ [][Next]_rvars
-FairSpec == Spec /\ WF_rvars((\E o \in Oracles(P, ep, doc) : WrapperDecode(o)) \/ (\E v \in {"ok", "err"} : StructVerdictOk(v) /\ StructDecode(v)) \/ Dispatch \/ Return)
+FairSpec == Spec /\ WF_rvars((\E o \in Oracles(P, ep, doc) : WrapperDecode(o)) \/ (\E v \in {"ok", "err"} : StructVerdictOk(v) /\ StructDecode(v)) \/ AbsentReject \/ Dispatch \/ Return)
 
 (* rejected programs are exactly the colliding / ill-structured ones *)
 RejectedIffInvalid == (stage = "rejected") => ~P.accepted
@@ -225,21 +238,23 @@ EnumMs(q) == {x \in (1..Len(q.parts)) \X (1..(PerProg + 3)) :
                  x[2] <= Len(q.parts[x[1]].methods) /\ q.parts[x[1]].methods[x[2]].kind \in EnumKinds}
 StructMs(q) == {x \in (1..Len(q.parts)) \X (1..(PerProg + 3)) :
                  x[2] <= Len(q.parts[x[1]].methods) /\ q.parts[x[1]].methods[x[2]].kind \in {"instantiate", "migrate"}}
-Eps(q) == (Range(q.ep_kinds) \cup Range(q.overrides)) \ {"reply"}
+(* every kind something can be delivered to: the emitted entry points, the overridden kinds (through the multitest impl),
+   and migrate -- which the multitest impl has even when the contract has no migrate handler *)
+Eps(q) == (Range(q.ep_kinds) \cup Range(q.overrides) \cup {"migrate"}) \ {"reply"}
 M(q, x) == q.parts[x[1]].methods[x[2]]
 St(e, sh, key, body, part, meth, v) ==
     [ep |-> e, shape |-> sh, key |-> key, body |-> body, part |-> part, method |-> meth, val |-> v]
 (* the paths a stimulus is delivered through: the generated entry point (absent for an overridden kind) and the multitest impl *)
-ViasOf(q, st) == IF st.ep \in Range(q.overrides) THEN <<"mt">> ELSE <<"ep", "mt">>
+ViasOf(q, st) == IF st.ep \in Range(q.overrides) \/ st.ep \notin Range(q.ep_kinds) THEN <<"mt">> ELSE <<"ep", "mt">>
 FirstWires(q, k) ==
     LET l == SetToSeq({w \in EWireUniverse(q) : \E i \in 1..Len(q.parts) : w \in EWireNames(q.parts[i], k)})
     IN SubSeq(l, 1, IF Len(l) < 2 THEN Len(l) ELSE 2)
 StimSet(q) ==
     \* every well-formed message of every part, delivered to every entry point (C01-C04)
-       {St(e, "obj1", M(q, x).wire, "exact", q.parts[x[1]].id, M(q, x).name, Mod(x[1] + x[2], 2)) : x \in EnumMs(q), e \in Eps(q)}
-    \* malformed bodies for every third handler, at its own entry point
+       {St(e, "obj1", M(q, x).wire, "exact", q.parts[x[1]].id, M(q, x).name, Mod(M(q, x).h, 2)) : x \in EnumMs(q), e \in Eps(q)}
+    \* malformed bodies for about every third handler (chosen by name, not by position), at its own entry point
   \cup {St(M(q, x).kind, "obj1", M(q, x).wire, b, q.parts[x[1]].id, M(q, x).name, 0) :
-           x \in {y \in EnumMs(q) : Mod(y[2], 3) = 1}, b \in {"missing", "wrongtype", "extra", "notobj"}}
+           x \in {y \in EnumMs(q) : Mod(M(q, y).h, 3) = 1}, b \in {"missing", "wrongtype", "extra", "notobj"}}
     \* the other spelling of the name (convert_case's snake case of the variant), where it differs
   \cup {St(M(q, x).kind, "obj1", M(q, x).near, "exact", q.parts[x[1]].id, M(q, x).name, 0) :
            x \in {y \in EnumMs(q) : M(q, y).near # M(q, y).wire}}
@@ -252,7 +267,10 @@ StimSet(q) ==
   \cup {St(e, "obj2", FirstWires(q, e)[1], "exact", "", "", 0) : e \in {k \in Eps(q) \cap EnumKinds : Len(FirstWires(q, k)) = 2}}
   \cup {St(e, "dup", FirstWires(q, e)[1], "exact", "", "", 0) : e \in {k \in Eps(q) \cap EnumKinds : Len(FirstWires(q, k)) >= 1}}
 
-EmitProg(q) == q @@ [stim |-> LET ss == SetToSeq(StimSet(q)) IN [i \in 1..Len(ss) |-> ss[i] @@ [vias |-> ViasOf(q, ss[i])]]]
+B == INSTANCE BuilderOps
+BuilderRuns(q) == IF q.family # "shared" THEN <<>>
+                  ELSE SetToSeq(B!Runs("exec", BuilderSets)) \o SetToSeq(B!Runs("inst", BuilderSets))
+EmitProg(q) == q @@ [builder |-> BuilderRuns(q)] @@ [stim |-> LET ss == SetToSeq(StimSet(q)) IN [i \in 1..Len(ss) |-> ss[i] @@ [vias |-> ViasOf(q, ss[i])]]]
 
 EmitCorpus ==
     LET out == IOEnv.VERIF_OUT
